@@ -54,8 +54,12 @@ def run(tier):
                 sk[k[:-1] + "r"] = 0  # bundleDependencies are names: the requirement is *
                 sk[k[:-1] + "a"] = 0
         ejobs.append(dict(ebase, harness="VerifC18EndToEnd", params=sk))
-    return run_property("C18", tier, [Group("resolve", jobs), Group("rnpm", ejobs, files=["c06.go", "c06v2.go", "c18e2e.go"])],
-                        required_covers=["alias with a range", "scoped real name", "several bundles", "a bundle installed under an alias", "several dependencies in one response", "a graph with several nodes through both clients"],
+    for i in range(30 if q else 600):
+        sk = dict(ejobs[i % len(ejobs)]["params"])
+        sk.update(warm=i % 2, alt=i)
+        ejobs.append(dict(ebase, harness="VerifC18Shared", params=sk))
+    return run_property("C18", tier, [Group("resolve", jobs), Group("rnpm", ejobs, files=["c06.go", "c06v2.go", "c05shared.go", "c18e2e.go"])],
+                        required_covers=["alias with a range", "scoped real name", "several bundles", "a bundle installed under an alias", "several dependencies in one response", "a graph with several nodes through both clients", "one Resolve call checked against the shared-state discipline"],
                         assumptions=["sequential unit clauses on flattenNPMDeps and npmRequirements with symbolic names/requirements/bundle names and versions; bundle trees up to depth 3 from job parameters",
-                                     "end to end, sequential: the npm resolver over the API-backed client, served by an in-process stand-in that implements the generated InsightsClient interface from the universe, gives the same graph as over the in-memory client (second-generation C06 skeletons restricted to what the API can express: latest tag only, the four sections, bundleDependencies by name, aliases; bundled packages are not generated end to end)", "gRPC transport itself and goroutine interleavings are not decided: the engine has no scheduler and does not execute grpc"],
+                                     "end to end, sequential: the npm resolver over the API-backed client, served by an in-process stand-in that implements the generated InsightsClient interface from the universe, gives the same graph as over the in-memory client (second-generation C06 skeletons restricted to what the API can express: latest tag only, the four sections, bundleDependencies by name, aliases; bundled packages are not generated end to end)", "race clause decided sequentially: the shared-state (lockset) discipline of DESIGN §11.1 on one npm Resolve through an API-backed client whose root version bundles a package (so that the table of bundled versions is written), counterexamples replayed as 8 concurrent resolutions under the race detector", "gRPC transport itself and goroutine interleavings are not explored: the engine has no scheduler and does not execute grpc"],
                         bounds={"alias_body_len": 4 if q else 6, "bundles": 3, "depth": 3})
